@@ -342,10 +342,10 @@ Proof. exact write_ttml_empty. Qed.
 Print Assumptions C03_write_empty.
 
 (* ---- the model's literals are the constants of the Go source (Proofs/ConstTie.v, Gen/Consts.v regenerated from the
-   repository on every run by tools/genconsts): every TTML keyword, separator, tag and name the model spells out equals the
-   package-level constant, struct tag or bidirectional-map entry of the source, or occurs among the string literals of
-   the function the model transcribes.  A closed boolean computed by the kernel. ---- *)
-From Astisub Require Proofs.ConstTie.
-Theorem C03_constants_from_source : ConstTie.all ConstTie.TtmlTie.ties = true.
-Proof. exact ConstTie.TtmlTie.consts_from_source. Qed.
+   repository on every run by tools/genconsts): the TTML separators, keywords and names the model spells out equal the
+   NAMED package-level constants, struct tags and bidirectional-map entries of the source (literals inside function bodies and
+   regexp patterns are deliberately not tied: see Proofs/ConstTie.v).  A closed boolean computed by the kernel. ---- *)
+From Astisub Require Proofs.ConstTie Proofs.ConstTieTtml.
+Theorem C03_constants_from_source : ConstTie.all ConstTieTtml.TtmlTie.ties = true.
+Proof. exact ConstTieTtml.TtmlTie.consts_from_source. Qed.
 Print Assumptions C03_constants_from_source.
